@@ -949,17 +949,20 @@ func ensurePathExists(pd *container, path string, options *ApplyOptions) error {
 				}
 			}
 		} else {
+			// An existing value that is neither object nor array cannot be
+			// descended into: the parent location is unreachable, as it is
+			// for an add without this option.
 			if isArray(*target.raw) {
 				doc, err = target.intoAry()
 
 				if err != nil {
-					return err
+					return fmt.Errorf("add operation does not apply: doc is missing path: \"%s\": %w", path, ErrMissing)
 				}
 			} else {
 				doc, err = target.intoDoc(options)
 
 				if err != nil {
-					return err
+					return fmt.Errorf("add operation does not apply: doc is missing path: \"%s\": %w", path, ErrMissing)
 				}
 			}
 		}
